@@ -186,3 +186,8 @@ Definition py_unopt {R L} (a:option Z) : ctl R L Z := match a with Some x => Nex
 Fixpoint py_enumerate_from {A} (i:Z) (l:list A) : list (Z * A) :=
   match l with [] => [] | a::r => (i, a) :: py_enumerate_from (i + 1)%Z r end.
 Definition py_enumerate {A} (l:list A) : list (Z * A) := py_enumerate_from 0%Z l.
+
+(* sorted(l, key=len): stable insertion sort by length *)
+Fixpoint insert_by_len {A} (x:list A) (l:list (list A)) : list (list A) :=
+  match l with [] => [x] | y::r => if (length y <=? length x) then y :: insert_by_len x r else x :: y :: r end.
+Definition sort_by_len {A} (l:list (list A)) : list (list A) := fold_right insert_by_len [] l.
